@@ -162,5 +162,50 @@ pub fn corr(ctx: &mut Ctx) {
             }
         }
     }
+    // ---- "before any work" through the file entry point and the executable: `--timeout 0` on every route, standard
+    // input included. Whatever the run decides not to do, what it delivers - in place, to --out, to standard output - is
+    // a well-formed file with the input's pixels that is not larger, and it IS delivered. ------------------------------
+    let dir = crate::cli::work_dir("deadline");
+    for _ in 0..(ctx.n / 6).max(8) {
+        let case = gen_case(&mut rng, Profile::Lossless, false, 8);
+        let w = dir.join("w");
+        let _ = std::fs::remove_dir_all(&w);
+        std::fs::create_dir_all(&w).unwrap();
+        std::fs::write(w.join("in.png"), &case.input).unwrap();
+        let route = rng.below(5);
+        let mut args: Vec<String> = vec!["--timeout".into(), "0".into(), "-q".into()];
+        if case.opts.force { args.push("--force".into()); }
+        if let Some(l) = [Some("0"), Some("2"), Some("4"), None][rng.below(4) as usize] { args.push("-o".into()); args.push(l.into()); }
+        match route {
+            0 => args.push("in.png".into()),
+            1 => { args.extend(["--out".into(), "out.png".into(), "in.png".into()]); }
+            2 => { args.extend(["--stdout".into(), "in.png".into()]); }
+            3 => args.push("-".into()),
+            _ => { args.extend(["--out".into(), "out.png".into(), "-".into()]); }
+        }
+        st.count(&format!("expired_at_start_route{}", route));
+        let r = if route >= 3 { crate::cli::run_bin_stdin(&w, &args, &case.input) } else { crate::cli::run_bin(&w, &args) };
+        let c2 = Case { img: case.img.clone(), class: format!("{} binary {}", case.class, args.join(" ")), enc: case.enc.clone(), input: case.input.clone(), opts: case.opts.clone() };
+        if r.status != Some(0) {
+            st.fail("expired-at-start", format!("exit status {:?} for a valid file ({})", r.status, args.join(" ")), c2.replay_json());
+            continue;
+        }
+        let delivered: Vec<u8> = match route {
+            0 => std::fs::read(w.join("in.png")).unwrap_or_default(),
+            1 | 4 => std::fs::read(w.join("out.png")).unwrap_or_default(),
+            _ => r.stdout.clone(),
+        };
+        if delivered.is_empty() {
+            st.fail("expired-at-start", format!("the run reports success and delivered nothing ({})", args.join(" ")), c2.replay_json());
+            continue;
+        }
+        let out = Outcome::Ok(delivered);
+        let mut c3 = c2;
+        // the executable's own defaults apply (metadata is kept: no strip flag is given)
+        c3.opts = { let mut o = gen_opts(&mut Rng::new(1), Profile::Lossless, false); o.force = case.opts.force; o.strip = HStrip::None; o };
+        judge("C01", &c3, &out, &mut st);
+        judge("C02", &c3, &out, &mut st);
+        if !case.opts.force { judge("C04", &c3, &out, &mut st); }
+    }
     ctx.write_stats(&st);
 }
